@@ -3,10 +3,11 @@ from __future__ import annotations
 from copy import deepcopy
 from dataclasses import dataclass
 import sys
-from typing import TypeVar
+from typing import TypeVar, Union, get_args, get_origin
 from geneticengine.exceptions import GeneticEngineError
 
 from geneticengine.grammar.grammar import Grammar
+from geneticengine.grammar.utils import get_generic_parameter, is_annotated, is_union
 from geneticengine.random.sources import RandomSource, float_between
 from geneticengine.representations.api import (
     RepresentationWithCrossover,
@@ -21,6 +22,19 @@ from geneticengine.solutions.tree import LocalSynthesisContext, TreeNode
 T = TypeVar("T")
 
 MAX_GENE_VALUE = 1024
+
+
+def gene_key(ty):
+    """The symbol under which genes are stored: the type without its refinements. With string annotations (postponed
+    evaluation, quoted forward references) the fields are resolved anew on every expansion, so a union with a refined
+    member is a new, unequal type object each time, while its unrefined shape is always the same."""
+    if is_annotated(ty):
+        return gene_key(get_generic_parameter(ty))
+    args = get_args(ty)
+    if args:
+        origin = Union if is_union(ty) else get_origin(ty)
+        return origin[tuple(gene_key(a) for a in args)]
+    return ty
 
 
 @dataclass
@@ -63,6 +77,8 @@ class DynamicSGEDecider(SynthesisDecider):
         self.validate()
 
     def read(self, ty):
+        if is_union(ty):
+            ty = gene_key(ty)
         position = self.positions.get(ty, 0)
         v = self.genotype.get(ty, position)
         self.positions[ty] = position + 1
